@@ -62,6 +62,8 @@ fn only_allowed(calls: &[RemoteCall], op: &str) -> Result<(), Fail> {
 
 pub fn check(s: &'static dyn Proto, c: &Case, st: &mut Stats, _k: &KnownFindings) -> CaseResult {
     ksf::set_default_spec(KsfSpec::Identity);
+    remote::set_handle_mode(false);
+    remote::set_short_handle(false);
     let m = s.meta();
     let pw = c.pw.bytes();
     let cred = c.cred.bytes();
@@ -147,7 +149,8 @@ pub fn check(s: &'static dyn Proto, c: &Case, st: &mut Stats, _k: &KnownFindings
                 Err(x) => return Err(Fail::new(format!("external key failed at call {n} with Custom({n}) but ServerLogin::start returned {x:?}"))),
                 Ok(_) => return Err(Fail::new(format!("external key failed at call {n} but ServerLogin::start still produced a response and state"))),
             }
-            ensure_eq!(made, n, "calls made after the failing call");
+            // whether the server talks to the key again after the failing call is not stated
+            let _ = made;
             st.label(format!("fault@login-start:{n}/{ncalls}"));
         } else {
             let (a, b) = r.map_err(|x| e("no-fault control", x))?;
@@ -208,7 +211,7 @@ pub fn check(s: &'static dyn Proto, c: &Case, st: &mut Stats, _k: &KnownFindings
     let hr = (|| -> CaseResult {
         let hsetup = s.remote_setup_new_with_key(&mut t(1).rng(), &sk).map_err(|x| e("remote setup (handle mode)", x))?;
         let hbytes = s.remote_setup_serialize(hsetup.as_ref());
-        ensure!(hbytes != s.ser(Codec::Native, &direct), "HARNESS-BUG: handle mode did not change the serialized key");
+        assert!(hbytes != s.ser(Codec::Native, &direct), "HARNESS-BUG: handle mode did not change the serialized key");
         let restored = s
             .remote_setup_deserialize(&hbytes)
             .map_err(|x| Fail::new(format!("a server whose external key serializes as a handle cannot be restored: {x:?}")))?;
